@@ -55,7 +55,8 @@ func (e *Exec) ascend(fr *Frame, st *BState, x *ssa.Call, args []SV) SV {
 	// havoc what the callback may write
 	keys := map[string]bool{}
 	writeKeys(cf, map[*ssa.Function]bool{}, keys)
-	for k, h := range st.heap {
+	for _, k := range sortedHeapKeys(st.heap) {
+		h := st.heap[k]
 		for pre := range keys {
 			if strings.HasPrefix(k, pre) {
 				st.heap[k] = e.havocHeapKey(k, h, "ascend.")
@@ -69,7 +70,7 @@ func (e *Exec) ascend(fr *Frame, st *BState, x *ssa.Call, args []SV) SV {
 	}
 	cbCells := map[*ssa.Alloc]bool{}
 	assignedCells(cf, map[*ssa.Function]bool{}, cbCells)
-	for al := range cbCells {
+	for _, al := range sortedAllocs(cbCells) {
 		if _, ok := st.cells[al]; ok {
 			nv := e.freshSV(al.Type().(*types.Pointer).Elem(), "ascend."+al.Comment, st.reach, false)
 			e.saneInput(st, al.Type().(*types.Pointer).Elem(), nv, tTrue)
